@@ -7,7 +7,7 @@ from props_map import finish_common
 
 LAYN = ["left", "right", "stride", "left_padded", "right_padded"]
 BASES = ["int", "double"]
-ARGS_CPP = {1: "double", 2: "drv::cls_nt", 3: "drv::cls_throw", 4: "drv::cls_none"}
+ARGS_CPP = {1: "double", 2: "drv::cls_nt", 3: "drv::cls_throw", 4: "drv::cls_none", 5: "drv::cls_expl"}
 CXX17 = {"gcc17", "clang17", "clang17-emu"}
 
 
@@ -124,7 +124,7 @@ def rand_arg(rng):
     u = rng.random()
     if u < 0.6:
         return (0, rng.randrange(8))
-    return (rng.choice([1, 2, 2, 3, 4]),)
+    return (rng.choice([1, 2, 2, 3, 4, 5, 5]),)
 
 
 def arg_cpp(a):
